@@ -3,10 +3,13 @@ package main
 import (
 	"github.com/vulcand/oxy/v2/zverif/c01"
 	"github.com/vulcand/oxy/v2/zverif/c02"
+	"github.com/vulcand/oxy/v2/zverif/c03"
 	"github.com/vulcand/oxy/v2/zverif/c17"
 )
 
 func init() {
+	parts["c03"] = c03.Run
+	replays["c03"] = c03.Replay
 	parts["c02"] = c02.Run
 	replays["c02"] = c02.Replay
 	parts["c01"] = c01.Run
